@@ -242,6 +242,7 @@ POST = [
     "a",
     "if a > 0\n  return a\nend\n0",
     "do\n  return a\nfinally\n  println(\"fin\")\nend",
+    "l := [\"p\", \"q\"][0...1]\nprintln(l.inspect)\nh := %{ \"k\" => \"v\" }[\"k\"]\nprintln(h.inspect)\na",
 ]
 INSERTS = [
     "zz := 7", "zz := \"s\"", "zz := -> 1", "zz := |q: Int|: Int -> q + 1", "zz := ||: Int ->\n  return 5\nend",
@@ -249,6 +250,7 @@ INSERTS = [
     "zz := |q: Int| ->\n  while q > 0\n    q = q - 1\n  end\n  q\nend",
     "zz := || ->\n  do\n    1 / 1\n  catch ZeroDivisionError()\n    0\n  end\nend",
     "zz := || -> || -> 2", "zz := ||: Int ->\n  loop\n    break\n  end\n  4\nend",
+    "zz := [1, 2][1]", "zz := [1.5, 2.5][0...0]", "zz := %{ 1 => 2 }[1]",
 ]
 
 
@@ -410,7 +412,9 @@ def run(ctx):
         a = template(uid + "o", PRE[pi], POST[qi], "", at)
         b = template(uid + "e", PRE[pi], POST[qi], INSERTS[ii], at)
         pairs.append((f"t{k}", a, b, "insert-template", None, None))
-    for k, ins in enumerate(INSERTS if not ctx.quick else ctx.rng.sample(INSERTS, 4)):
+    # `init` of a class with attrs is a pure context: closures that print are not insertable there
+    init_inserts = [x for x in INSERTS if "println" not in x]
+    for k, ins in enumerate(init_inserts if not ctx.quick else ctx.rng.sample(init_inserts, 4)):
         for at in (0, 1):
             uid = f"{ctx.seed}t{900 + 2 * k + at}"
             pairs.append((f"i{k}{at}", template_init(uid + "o", "", at), template_init(uid + "e", ins, at), "insert-template", None, None))
